@@ -54,23 +54,29 @@ Fixpoint digits_loop (fuel : nat) (buf : list N) (i : nat) (base lim acc : Z) (o
     end
   end.
 
-(* blanks, optional sign, base / prefix selection: (negative?, effective base, index of first digit) *)
-Definition strto_front (buf : list N) (base : Z) : res (bool * Z * nat) :=
-  let* i := skip_ws (S (length buf)) buf 0 in
-  let* c := rd buf i in
-  let neg := (c =? 45)%N in
-  let i1 := if ((c =? 45) || (c =? 43))%N then S i else i in
+(* base / prefix selection at the first character after the sign: (effective base, index of first digit).
+   "0x" is a prefix only for base 0 / 16 and only when a hex digit follows it. *)
+Definition strto_base (buf : list N) (base : Z) (i1 : nat) : res (Z * nat) :=
   let* c0 := rd buf i1 in
   if (c0 =? 48)%N then
     if (base =? 0) || (base =? 16) then
       let* c1 := rd buf (S i1) in
       if is_x c1 then
         let* c2 := rd buf (S (S i1)) in
-        if is_hex c2 then Ok (neg, 16, S (S i1))
-        else Ok (neg, (if base =? 0 then 8 else base), i1)
-      else Ok (neg, (if base =? 0 then 8 else base), i1)
-    else Ok (neg, base, i1)
-  else Ok (neg, (if base =? 0 then 10 else base), i1).
+        if is_hex c2 then Ok (16, S (S i1))
+        else Ok ((if base =? 0 then 8 else base), i1)
+      else Ok ((if base =? 0 then 8 else base), i1)
+    else Ok (base, i1)
+  else Ok ((if base =? 0 then 10 else base), i1).
+
+(* blanks, optional sign, then the base: (negative?, effective base, index of first digit) *)
+Definition strto_front (buf : list N) (base : Z) : res (bool * Z * nat) :=
+  let* i := skip_ws (S (length buf)) buf 0 in
+  let* c := rd buf i in
+  let neg := (c =? 45)%N in
+  let i1 := if ((c =? 45) || (c =? 43))%N then S i else i in
+  let* (b, i2) := strto_base buf base i1 in
+  Ok (neg, b, i2).
 
 Definition strtoumax_m (buf : list N) (base : Z) : res (Z * nat * bool) :=
   let* (nb, i2) := strto_front buf base in
